@@ -6,6 +6,7 @@ cd /repo || exit 2
 if [ -n "$(git status --porcelain -- crates src)" ]; then echo "repo not clean"; exit 2; fi
 git apply "$PATCH" || { echo "patch does not apply"; exit 2; }
 trap 'git -C /repo checkout -- . ' EXIT
+mkdir -p /tmp/mutant_out && cp /verif/known_findings.json /tmp/mutant_out/ && cp -r /verif/witnesses /tmp/mutant_out/ 2>/dev/null
 for p in "$@"; do
   out=$(VERIF_ROOT=/tmp/mutant_out /verif/check $p --tier quick 2>&1); rc=$?
   mkdir -p /tmp/mutant_out
